@@ -2,7 +2,7 @@
     harness wrote: inputs next to what the real fabio code (and, end to end, the real
     httputil.ReverseProxy / Request.Write / ReadRequest) produced on them. *)
 From Coq Require Import String List NArith ZArith Bool.
-From Fabio Require Import Lib.Outcome Lib.Bytes Lib.Verdict Model.Headers Model.HeadersSpec Model.HeaderLines.
+From Fabio Require Import Lib.Outcome Lib.Bytes Lib.Verdict Model.Headers Model.HeadersSpec Model.HeaderLines Model.HeadersRouted.
 Import ListNotations.
 Local Open Scope N_scope.
 
@@ -50,7 +50,16 @@ Inductive case :=
    as net/http handed them to fabio, [impl] = header map the upstream READ OFF THE WIRE and the
    STS values the client received, [uhost] = the Host line the upstream read *)
 | CWire (cfg : config) (t : target) (uuid : str) (r : request) (lines : list hline)
-        (impl : outcome (hmap * list str)) (uhost : str) (ups : list str).
+        (impl : outcome (hmap * list str)) (uhost : str) (ups : list str)
+(* the same two, THROUGH THE ROUTING STAGE: HTTPProxy.Lookup is the real Table.Lookup of a table
+   built by route.NewTable (several hosts, glob patterns, redirect routes in front of a
+   fall-through route, allow= / deny= rules, host= / strip= options), followed by the real
+   AccessDeniedHTTP / Authorized.  [r] / [lines] = the request as the CLIENT sent it (snapshot taken
+   before Lookup ran), [d] = the decision the real routing stage took (Model/HeadersRouted.v) *)
+| CRouted (cfg : config) (d : decision) (uuid : str) (r : request) (impl : outcome (hmap * list str))
+          (uhost : str) (ups : list str) (real : bool)
+| CRoutedWire (cfg : config) (d : decision) (uuid : str) (r : request) (lines : list hline)
+              (impl : outcome (hmap * list str)) (uhost : str) (ups : list str).
 
 (* the part of the client's Strict-Transport-Security values that is not the upstream's *)
 Fixpoint drop_prefix (l p : list str) : option (list str) :=
@@ -96,6 +105,59 @@ Definition judge (same : bool) (cl clm : list (bool * option N)) (keq : list boo
     | Some k => if no_new_failure then v_known k else v_disagree_spec_fails
     | None => v_disagree_spec_fails
     end.
+
+(* [m] = the model's header map at the upstream + STS, [mh] = the model's upstream Host, [nf_ok] =
+   whether "nothing was forwarded" is a legitimate outcome for this input *)
+Definition check_serve_gen (m : outcome (hmap * option str)) (mh : outcome str) (nf_ok : bool)
+           (cfg : config) (r : request) (impl : outcome (hmap * list str))
+           (uhost : str) (ups : list str) (real : bool) : N :=
+      match impl, m with
+      | Ok (hi, si), Ok (hm, sm) =>
+          let hdr := r_hdr r in
+          let same := hmap_eq_on (managed_keys cfg) hi hm &&
+                      list_eqb beq si (if real && takes_ws_path hm then []
+                                       else (match sm with Some v => [v] | None => [] end) ++ ups) &&
+                      match mh with Ok uh => beq uhost uh | _ => false end in
+          let clf up := if cfg_sane cfg
+                        then clauses cfg hdr (peer_of r) (r_host r) (spec_port (r_host r) (is_tls r)) (is_tls r) true up
+                        else [] in
+          judge same (clf hi) (clf hm)
+                (if cfg_sane cfg then map (fun k => veq (hfind hi k) (hfind hm k)) (clause_keys cfg) else [])
+                (match strip_suffix si ups with Some own => cl_sts cfg (is_tls r) own | None => true end)
+                (negb (no_region hdr)) (forged cfg hdr)
+      | Err _, Err _ => verdict true nf_ok None false
+      | Panic, Panic => v_model_spec_fails
+      | Panic, _ => v_disagree_spec_fails
+      | _, _ => v_disagree
+      end.
+
+Definition check_wire_gen (m : outcome (hmap * option str)) (mh : outcome str) (nf_ok : bool)
+           (cfg : config) (r : request) (lines : list hline) (impl : outcome (hmap * list str))
+           (uhost : str) (ups : list str) : N :=
+      (* the clauses are judged against the header map of the LINES (no key without a value,
+         Proofs.HeaderLines.lines_wf: the X-Forwarded-For clause is never excused here) *)
+      let hdr := parse_lines lines in
+      match impl, m with
+      | Ok (hi, si), Ok (hm, sm) =>
+          let same := hmap_eqb (r_hdr r) hdr &&
+                      hmap_eq_on (managed_keys cfg) hi hm &&
+                      list_eqb beq si (if takes_ws_path hm then []
+                                       else (match sm with Some v => [v] | None => [] end) ++ ups) &&
+                      match mh with Ok uh => beq uhost uh | _ => false end in
+          let clf up := if cfg_sane cfg
+                        then clauses cfg hdr (peer_of r) (r_host r) (spec_port (r_host r) (is_tls r)) (is_tls r) true up
+                        else [] in
+          judge same (clf hi) (clf hm)
+                (if cfg_sane cfg then map (fun k => veq (hfind hi k) (hfind hm k)) (clause_keys cfg) else [])
+                (match strip_suffix si ups with Some own => cl_sts cfg (is_tls r) own | None => true end)
+                (negb (no_region hdr)) (forged cfg hdr || existsb blank_line lines)
+      | Err _, Err _ => verdict true nf_ok None false
+      | Panic, Panic => v_model_spec_fails
+      | Panic, _ => v_disagree_spec_fails
+      | _, _ => v_disagree
+      end.
+
+Definition peer_unreadable (r : request) : bool := match r_peer r with None => true | _ => false end.
 
 Definition check_case (c : case) : N :=
   match c with
@@ -144,51 +206,16 @@ Definition check_case (c : case) : N :=
       let m := match add_response_headers cfg tls with Some v => [v] | None => [] end in
       verdict (list_eqb beq impl m) (cl_sts cfg tls impl) None tls
   | CServe cfg t uuid r impl uhost ups real =>
-      let m := serve cfg t uuid r in
-      match impl, m with
-      | Ok (hi, si), Ok (hm, sm) =>
-          let hdr := r_hdr r in
-          let same := hmap_eq_on (managed_keys cfg) hi hm &&
-                      list_eqb beq si (if real && takes_ws_path hm then []
-                                       else (match sm with Some v => [v] | None => [] end) ++ ups) &&
-                      match upstream_host cfg t uuid r with Ok uh => beq uhost uh | _ => false end in
-          let clf up := if cfg_sane cfg
-                        then clauses cfg hdr (peer_of r) (r_host r) (spec_port (r_host r) (is_tls r)) (is_tls r) true up
-                        else [] in
-          judge same (clf hi) (clf hm)
-                (if cfg_sane cfg then map (fun k => veq (hfind hi k) (hfind hm k)) (clause_keys cfg) else [])
-                (match strip_suffix si ups with Some own => cl_sts cfg (is_tls r) own | None => true end)
-                (negb (no_region hdr)) (forged cfg hdr)
-      | Err _, Err _ => verdict true (match r_peer r with None => true | _ => false end) None false
-      | Panic, Panic => v_model_spec_fails
-      | Panic, _ => v_disagree_spec_fails
-      | _, _ => v_disagree
-      end
+      check_serve_gen (serve cfg t uuid r) (upstream_host cfg t uuid r) (peer_unreadable r) cfg r impl uhost ups real
   | CLines lines seen =>
       verdict (hmap_eqb seen (parse_lines lines)) (wf_hdr seen) None (existsb blank_line lines)
   | CWire cfg t uuid r lines impl uhost ups =>
-      (* the clauses are judged against the header map of the LINES (no key without a value,
-         Proofs.HeaderLines.lines_wf: the X-Forwarded-For clause is never excused here) *)
-      let hdr := parse_lines lines in
-      let m := serve_lines cfg t uuid r lines in
-      match impl, m with
-      | Ok (hi, si), Ok (hm, sm) =>
-          let same := hmap_eqb (r_hdr r) hdr &&
-                      hmap_eq_on (managed_keys cfg) hi hm &&
-                      list_eqb beq si (if takes_ws_path hm then []
-                                       else (match sm with Some v => [v] | None => [] end) ++ ups) &&
-                      match upstream_host_wire cfg t uuid (req_of_lines r lines) with
-                      | Ok uh => beq uhost uh | _ => false end in
-          let clf up := if cfg_sane cfg
-                        then clauses cfg hdr (peer_of r) (r_host r) (spec_port (r_host r) (is_tls r)) (is_tls r) true up
-                        else [] in
-          judge same (clf hi) (clf hm)
-                (if cfg_sane cfg then map (fun k => veq (hfind hi k) (hfind hm k)) (clause_keys cfg) else [])
-                (match strip_suffix si ups with Some own => cl_sts cfg (is_tls r) own | None => true end)
-                (negb (no_region hdr)) (forged cfg hdr || existsb blank_line lines)
-      | Err _, Err _ => verdict true (match r_peer r with None => true | _ => false end) None false
-      | Panic, Panic => v_model_spec_fails
-      | Panic, _ => v_disagree_spec_fails
-      | _, _ => v_disagree
-      end
+      check_wire_gen (serve_lines cfg t uuid r lines) (upstream_host_wire cfg t uuid (req_of_lines r lines))
+                     (peer_unreadable r) cfg r lines impl uhost ups
+  | CRouted cfg d uuid r impl uhost ups real =>
+      check_serve_gen (serve_routed cfg d uuid r) (upstream_host_routed cfg d uuid r) (not_forwarded_ok d r)
+                      cfg r impl uhost ups real
+  | CRoutedWire cfg d uuid r lines impl uhost ups =>
+      check_wire_gen (serve_routed_lines cfg d uuid r lines) (upstream_host_routed_wire cfg d uuid r lines)
+                     (not_forwarded_ok d r) cfg r lines impl uhost ups
   end.
